@@ -138,17 +138,22 @@ macro_rules! check_text_roundtrip {
     }};
 }
 
+/// the formatter contract for one raw value in all four plain types
+pub fn check_value(l: &mut Local, long: &HV) {
+    let mut short = long.clone();
+    short.bh2.truncate(32);
+    check_object!(l, ssdeep::LongRawFuzzyHash, long);
+    check_object!(l, ssdeep::RawFuzzyHash, &short);
+    let (ln, sn) = (long.normalized(), short.normalized());
+    check_object!(l, ssdeep::LongFuzzyHash, &ln);
+    check_object!(l, ssdeep::FuzzyHash, &sn);
+}
+
 pub fn run(o: &Opts) -> i32 {
     let mut streams: Vec<Stream> = Vec::new();
     streams.push(Stream::new("objects-w3", o.n(60_000, 5_000_000), |_i, rng: &mut Rng, l: &mut Local| {
         let long = hashes::gen_hv(rng, 64, false);
-        let mut short = long.clone();
-        short.bh2.truncate(32);
-        check_object!(l, ssdeep::LongRawFuzzyHash, &long);
-        check_object!(l, ssdeep::RawFuzzyHash, &short);
-        let (ln, sn) = (long.normalized(), short.normalized());
-        check_object!(l, ssdeep::LongFuzzyHash, &ln);
-        check_object!(l, ssdeep::FuzzyHash, &sn);
+        check_value(l, &long);
         if !long.bh1.is_empty() && !long.bh2.is_empty() {
             l.nt(long.fp());
         }
